@@ -1,5 +1,5 @@
 """C04 Webentity resolution is longest-prefix match over the net prefix edits."""
-from harness.common import plain_pool, Ref, NEVER, PL, same
+from harness.common import plain_pool, typed_pool, Ref, NEVER, RULES, PL, same
 from harness.driver import History
 
 ID = "C04"
@@ -12,14 +12,19 @@ REQUIRED = ["resolve:webentity", "resolve:prefix", "resolve:error-iff-none", "by
 OUTSIDE = ["more than 3 pool LRUs of at most 3 stems, more than 4 edits", "automatic creations are exercised in C06 (typed LRUs, rule family)"]
 
 
+TPOOL = [{"hosts": 2}, {"extend": 0, "paths": 2}, {"hosts": 2, "paths": 1}]
+
+
 def levels(tier):
     edits = ["we", "delwe", "addprefix", "rmprefix", "moveprefix", "page"]
     if tier == "quick":
         return [
             {"name": "n2", "shapes": [[1, 2, 3]], "n": 2, "alphabet": edits},
-            {"name": "n3", "shapes": [[1, 2, 2]], "n": 3, "alphabet": ["we", "delwe", "addprefix", "rmprefix", "moveprefix"]},
+            {"name": "n3", "shapes": [[1, 2, 2]], "n": 3, "alphabet": ["we", "delwe", "addprefix", "moveprefix"]},
             {"name": "refused", "shapes": [[1, 2, 2]], "n": 2, "prelude": [["we", [[1, 1], [2, 2]]]],
              "alphabet": ["we", "addprefix", "delbad", "deldup", "rmforeign"]},
+            {"name": "auto-n2", "typed": TPOOL, "default": "domain", "anchored": (1, 3, "path1"), "n": 2, "alphabet": ["we", "page"],
+             "every_step": True},
         ]
     return [
         {"name": "n2", "shapes": [[1, 2, 3], [2, 2, 3]], "n": 2, "alphabet": edits + ["rmforeign", "delbad", "deldup"], "we_two_prefixes": True},
@@ -27,6 +32,8 @@ def levels(tier):
          "alphabet": ["we", "addprefix", "delbad", "deldup", "rmforeign", "delwe"]},
         {"name": "n3", "shapes": [[1, 2, 3]], "n": 3, "alphabet": edits},
         {"name": "n4", "shapes": [[1, 2, 2]], "n": 4, "alphabet": ["we", "delwe", "addprefix", "rmprefix", "moveprefix"]},
+        {"name": "auto-n3", "typed": TPOOL, "default": "domain", "anchored": (1, 3, "path1"), "n": 3, "alphabet": ["we", "page", "delwe", "addprefix", "links"],
+         "links_batch": 1, "every_step": True},
     ]
 
 
@@ -71,24 +78,40 @@ def battery(E, t, ref, pool, extra):
 
 def harness(E):
     P = E.params
-    shape = P["shapes"][E.choose("shape", len(P["shapes"]))]
-    pool = plain_pool(E, shape, P.get("L", 1))
-    t = E.Traph(folder=None, default_webentity_creation_rule=NEVER, webentity_creation_rules={})
     ref = Ref()
+    if P.get("typed"):
+        # typed LRUs with Hyphe's rules: automatic creations are part of the net effect
+        pool = typed_pool(E, P["typed"], L=1)
+        ref.default_rule = P["default"]
+        rules = {}
+        if P.get("anchored"):
+            li, k, rn = P["anchored"]
+            a = pool[li].prefix(k)
+            rules[a.lru] = RULES[rn]
+            ref.name(a)
+            ref.rules.set(a.lru, rn)
+        t = E.Traph(folder=None, default_webentity_creation_rule=RULES[P["default"]], webentity_creation_rules=rules)
+        z = E.const(b"p:") + E.bytes("z", 1) + E.const(b"|")
+    else:
+        shape = P["shapes"][E.choose("shape", len(P["shapes"]))]
+        pool = plain_pool(E, shape, P.get("L", 1))
+        t = E.Traph(folder=None, default_webentity_creation_rule=NEVER, webentity_creation_rules={})
+        z = E.bytes("z", 1) + E.const(b"|")
     h = History(E, t, ref, pool, P["alphabet"], P)
     h.prelude(P.get("prelude"))
-    for i in range(P["n"]):
-        kind, info = h.step(i)
-        if kind == "we":
-            E.check(info["ok"] == info["expected_ok"], "create_webentity:refusal",
-                    "create_webentity accepted=%s, a prefix was already attached=%s" % (info["ok"], not info["expected_ok"]))
     # one query outside the pool: an extension of a pool LRU by a fresh stem, or a fresh LRU
-    z = E.bytes("z", 1) + E.const(b"|")
     k = E.choose("query", len(pool) + 1)
     if k < len(pool):
         E.reach("query:extension")
         extra = pool[k].extend(z, "P%d+z" % k)
     else:
         E.reach("query:fresh")
-        extra = PL([z], "z")
+        extra = PL([z], "z") if not P.get("typed") else PL([E.const(b"s:http|"), E.const(b"h:") + E.bytes("y", 1) + E.const(b"|")], "fresh")
+    for i in range(P["n"]):
+        kind, info = h.step(i)
+        if kind == "we":
+            E.check(info["ok"] == info["expected_ok"], "create_webentity:refusal",
+                    "create_webentity accepted=%s, a prefix was already attached=%s" % (info["ok"], not info["expected_ok"]))
+        if P.get("every_step") and i < P["n"] - 1:
+            battery(E, t, ref, pool, extra)      # query, write, query again: answers must follow the edits
     battery(E, t, ref, pool, extra)
